@@ -515,7 +515,6 @@ package priority
 //@   ensures [* C17] forall k :: dom(dsc.inputs, k) <==> (old(dom(dsc.inputs, k)) || k == priority)
 //@   ensures [* C17] forall k :: k != priority ==> dsc.inputs[k] == old(dsc.inputs[k])
 //@   ensures [* C02 C07 C17] registered-channel: dsc.inputs[priority].Channel == channel && !dsc.inputs[priority].Drained
-//@   assume-arith append-len[0]
 
 //@ func (*Discipline).updateInputs
 //@   requires [*] WFS(dsc)
